@@ -145,7 +145,7 @@ def wfNodes (ns : List (Node Nat)) : Bool :=
 def runSeq (N : Nat) : Array (Node Nat) → List (Call Nat) → List (Resp Nat)
   | _, [] => []
   | arr, c :: cs =>
-    let r := seqStep (graphOf arr) c
+    let r := seqStep (N+1) (graphOf arr) c
     r.2 :: runSeq N (table N r.1) cs
 
 def handleSeq : P String := do
@@ -288,7 +288,7 @@ partial def search (cx : Ctx) (arr : Array (Node Nat)) (vals : Array Nat) (mask 
         pick := some k
   if let some k := pick then
     let o := cx.ops[k]!
-    let r := seqStep (graphOf arr) o.op.call
+    let r := seqStep (cx.N+1) (graphOf arr) o.op.call
     if decide (r.2 = o.op.resp) then
       return (← search cx (table cx.N r.1) vals (mask ^^^ (1 <<< k)) (k :: acc))
   let key := (mask, valuation arr)
@@ -300,7 +300,7 @@ partial def search (cx : Ctx) (arr : Array (Node Nat)) (vals : Array Nat) (mask 
     if mask.testBit k then
       let o := cx.ops[k]!
       if o.invPos < minResp && decide (predict arr vals o.op.call = o.op.resp) then
-        let r := seqStep (graphOf arr) o.op.call
+        let r := seqStep (cx.N+1) (graphOf arr) o.op.call
         if decide (r.2 = o.op.resp) then
           let arr' := table cx.N r.1
           let res ← search cx arr' (nodeVals arr') (mask ^^^ (1 <<< k)) (k :: acc)
@@ -405,7 +405,7 @@ def linearizable (ns : List (Node Nat)) (evs : List (Event Nat)) : Bool :=
     | some order =>
       let S : List (LOp Nat) := order.filterMap fun k => byResp[k]?.map (·.op)
       -- the verified check decides; the search above is only a proposal
-      checkWitness (graphOf arr0) evs S
+      checkWitness (ns.length+1) (graphOf arr0) evs S
 
 /-- debugging aid (not used by the harness): search nodes used by phase 1 / phase 2 -/
 def searchStats (ns : List (Node Nat)) (evs : List (Event Nat)) : String :=
